@@ -1,8 +1,8 @@
 """C01 / C02: csync.Mutex and csync.RWMutex (specs/csync: CsyncP monitor, Mutex/RWMutex X specs)."""
-import json, os, time
+import json, os
 import vlib
-from vlib import log
 
+PROPS = ["C01", "C02"]
 PROPERTY_OF = {"Excl": "C01", "Occ": "C01", "Stuck": "C02", "CancelStuck": "C02", "WriterPref": "C02",
                "SpuriousCancel": "C02", "Residue": "C02"}
 LABEL_RULES = [
@@ -12,114 +12,60 @@ LABEL_RULES = [
     (r"TryAcquire\((\d+),.*\)", "grant:c{1}"),
     (r"(?:Wake|WakeCtx)\((\d+)\)", None),
 ]
-FIX_F1 = True   # the X spec models the code after the "fix:" commit for F1 (FALSE reproduces the pinned behaviour)
+FIX_F1 = True   # X models the code after the "fix:" commit for F1 (FALSE reproduces the pinned behaviour)
 
-QUICK_SCEN = ["mx_q1", "rw_q1", "rw_q2"]
-THOROUGH_SCEN = ["mx_q1", "rw_q1", "rw_q2", "mx_t1", "rw_t1", "rw_t2", "rw_t3"]
-BIG_SCEN = ["rw_b1", "mx_b1"]   # model checked only (no graph dump)
+SCEN = {"quick": ["mx_q1", "rw_q1", "rw_q2"],
+        "thorough": ["mx_q1", "rw_q1", "rw_q2", "mx_t1", "rw_t1", "rw_t2", "rw_t3"]}
+BIG = ["rw_b1", "mx_b1"]   # thorough: model checked only (graph too large to dump)
 
 
 def scen_path(n):
     return os.path.join(vlib.VERIF, "specs", "csync", "scenarios", n + ".json")
 
 
-def model(workdir, name, eager, invariants, dump=None, workers=4, timeout=900):
-    sc = json.load(open(scen_path(name)))
+def mk_factory(sc):
     base = "Mutex" if sc["kind"] == "mutex" else "RWMutex"
-    d = vlib.spec_scratch(workdir, name + ("-g" if dump else "-mc"), ["csync", "lib"])
     prog = [[dict(op=o["op"], w=bool(o.get("w", False)) or sc["kind"] == "mutex", c=bool(o.get("c", False)), k=o.get("k", 0) + 1) for o in cl] for cl in sc["clients"]]
-    consts = ["Prog <- ScProg", "EagerWake = %s" % ("TRUE" if eager else "FALSE")]
-    if base == "RWMutex":
-        consts.append("FixF1 = %s" % ("TRUE" if FIX_F1 else "FALSE"))
-    cfg = ["INIT Init", "NEXT Next", "CHECK_DEADLOCK FALSE", "CONSTANTS"] + [" " + c for c in consts]
-    if invariants:
-        cfg += ["INVARIANTS TypeOK Agree NoResidue ModelSafe QuietInv" + (" WaitCount" if base == "RWMutex" else "")]
+
+    def mk(d, kind):
+        consts = ["Prog <- ScProg", "EagerWake = %s" % ("TRUE" if kind == "graph" else "FALSE")]
         if base == "RWMutex":
-            cfg += ["PROPERTY FailedPathsInert"]
-    vlib.write_mc(d, "MC", base, ["ScProg == " + vlib.json2tla(prog)], cfg)
-    r = vlib.run_tlc(d, "MC", "MC.cfg", workers=workers, dump=dump, timeout=timeout)
-    return r, sc
+            consts.append("FixF1 = %s" % ("TRUE" if FIX_F1 else "FALSE"))
+        cfg = ["INIT Init", "NEXT Next", "CHECK_DEADLOCK FALSE", "CONSTANTS"] + [" " + c for c in consts]
+        if kind == "mc":
+            cfg += ["INVARIANTS TypeOK Agree NoResidue ModelSafe QuietInv" + (" WaitCount" if base == "RWMutex" else "")]
+            if base == "RWMutex":
+                cfg += ["PROPERTY FailedPathsInert"]
+        vlib.write_mc(d, "MC", base, ["ScProg == " + vlib.json2tla(prog)], cfg)
+    return mk
+
+
+def models(wd, tier, seed):
+    states = trans = 0
+    scheds, notes, names = [], [], []
+    quick = tier == "quick"
+    for name in SCEN[tier] + ([] if quick else BIG):
+        if not os.path.exists(scen_path(name)):
+            continue
+        sc = json.load(open(scen_path(name)))
+        big = name in BIG
+        r, paths, nn = vlib.model_and_schedules(wd, name, mk_factory(sc), LABEL_RULES, seed, cap=600 if quick else 20000,
+                                                invariant_cfg={"specdirs": ["csync", "lib"]}, graph_cfg=None,
+                                                workers=vlib.NCPU if big else 8, timeout=1500, dump_graph=not big)
+        states += r["distinct"]
+        trans += r["states"]
+        notes += nn
+        names.append(name)
+        for i, p in enumerate(paths):
+            scheds.append({"name": "%s/%d" % (name, i), "scenario": sc, "labels": p})
+    return states, trans, scheds, notes, names
+
+
+FAM = dict(driver="csync", specdirs=["csync", "lib"], monitor="CsyncPTrace", property_of=PROPERTY_OF, models=models,
+           n_random={"quick": 4000, "thorough": 300000},
+           x_specs=["csync/Mutex.tla", "csync/RWMutex.tla"], p_monitor="csync/CsyncP.tla",
+           assumptions=["CsyncP encodes the statement (DESIGN §3 C01/C02 interpretation): 'waiting writer' = observed blocked"])
 
 
 def run(prop, tier, seed):
-    t0 = time.time()
-    wd = vlib.outdir(prop)
-    binp = vlib.build_harness(wd)
-    quick = tier == "quick"
-    scen = QUICK_SCEN if quick else [s for s in THOROUGH_SCEN if os.path.exists(scen_path(s))]
-    states = trans = 0
-    model_notes = []
-    scheds = []
-    for name in scen:
-        r, sc = model(wd, name, eager=False, invariants=True, workers=8)
-        states += r["distinct"]
-        trans += r["states"]
-        if not r["ok"]:
-            model_notes.append("model %s: %s %s" % (name, r["error"], r["violated"]))
-            log("[model] %s: NOT ok: %s %s" % (name, r["error"], r["violated"]))
-        dot = os.path.join(wd, name + ".dot")
-        g, _ = model(wd, name, eager=True, invariants=False, dump=dot[:-4])
-        if not os.path.exists(dot):
-            raise vlib.Inconclusive("no graph dump for %s: %s" % (name, g["out"][-2000:]))
-        init, edges, ne = vlib.parse_dot(dot)
-        paths, cov, total = vlib.edge_cover(init, edges, maxlen=70, cap=600 if quick else 30000, seed=seed)
-        os.remove(dot)
-        for i, p in enumerate(vlib.map_labels(paths, LABEL_RULES)):
-            scheds.append({"name": "%s/%d" % (name, i), "scenario": sc, "labels": p})
-        log("[model] %s: %d distinct states, %d transitions; eager graph %d edges -> %d schedules (%d/%d edges covered)" % (name, r["distinct"], r["states"], ne, len(paths), cov, total))
-    if not quick:
-        for name in BIG_SCEN:
-            if os.path.exists(scen_path(name)):
-                r, _ = model(wd, name, eager=False, invariants=True, workers=vlib.NCPU, timeout=1500)
-                states += r["distinct"]
-                trans += r["states"]
-                log("[model] %s: %d distinct states ok=%s %s" % (name, r["distinct"], r["ok"], r["error"]))
-                if not r["ok"]:
-                    model_notes.append("model %s: %s %s" % (name, r["error"], r["violated"]))
-    n = 4000 if quick else 300000
-    traces, st = vlib.run_harness(binp, "csync", wd, scheds=scheds, n=n, seed=seed)
-    viol, consumed, total, tstates = vlib.validate_traces(wd, ["csync", "lib"], "CsyncPTrace", traces)
-    if consumed != total:
-        raise vlib.Inconclusive("trace not fully consumed: %d of %d" % (consumed, total))
-    mine, harness_err = [], []
-    for v in viol:
-        for nm in v["names"]:
-            p = PROPERTY_OF.get(nm)
-            rec = dict(v, name=nm, property=p)
-            if p == prop:
-                mine.append(rec)
-            elif p is None:
-                harness_err.append(rec)
-    if harness_err:
-        raise vlib.Inconclusive("harness/monitor protocol error: %s" % harness_err[:3])
-    if st["crashed_shards"]:
-        model_notes.append("%d harness shards crashed; their flushed events were still validated" % st["crashed_shards"])
-
-    def replay(v):
-        evs = vlib.extract_run(v["trace_file"], v["run"])
-        end = next((e for e in evs if e["ev"] == "end"), {})
-        return {"driver": "csync", "monitor": "CsyncPTrace", "specdirs": ["csync", "lib"], "scenario": end.get("scenario"), "labels": end.get("labels"),
-                "events": evs}
-
-    cov = {
-        "states": states, "transitions": trans,
-        "traces_validated_against_impl": st["executions"],
-        "events_validated": total,
-        "schedules_from_tlc": st["schedules"], "schedules_followed_to_end": st["schedules_followed"],
-        "random_executions": st["executions"] - st["schedules"],
-        "distinct_label_sequences": st["distinct_label_sequences"],
-        "controller_steps": st["steps"],
-        "bubble_deadlocks": st["bubble_deadlocks"],
-        "x_specs": ["csync/Mutex.tla", "csync/RWMutex.tla"], "p_monitor": "csync/CsyncP.tla", "scenarios": scen,
-        "model_notes": model_notes,
-        "samples": st["samples"][:3],
-        "exhaustive": False,
-    }
-    rc = vlib.finish(prop, tier, seed, "model_checking", cov, mine, t0,
-                     ["TLC 1.8.0; CommunityModules Json/IOUtils", "testing/synctest durable-blocking detection (go1.26.8)",
-                      "CsyncP encodes the statement (DESIGN §3 C01/C02 interpretation)",
-                      "harness built with go1.26.8, not the go1.23 toolchain of the pinned suite"],
-                     replay_builder=replay)
-    if st["executions"] == 0:
-        raise vlib.Inconclusive("no executions")
-    return rc
+    return vlib.standard_check(prop, tier, seed, FAM)
